@@ -1201,6 +1201,52 @@ fn run_t(w: &[&str]) -> (String, String) {
             }
         }
     }
+    // while `portable` is on, groups may still be split into letters (an attached name stays attached, long options are
+    // left alone): `-eu` like `-e -u`, `-euoNAME` like `-e -u -oNAME` — same command or same error on the real parser
+    if portable && !oracle.starts_with("FAIL") {
+        let mut letters: Vec<String> = vec![];
+        let mut i = 0;
+        while i < args.len() {
+            let cs: Vec<char> = args[i].chars().collect();
+            if cs.len() >= 2 && (cs[0] == '-' || cs[0] == '+') && cs[1] != cs[0] && !cs[1..].contains(&cs[0]) {
+                let mut k = 1;
+                while k < cs.len() {
+                    if cs[k] == 'o' {
+                        letters.push(format!("{}{}", cs[0], cs[k..].iter().collect::<String>()));
+                        break;
+                    }
+                    letters.push(format!("{}{}", cs[0], cs[k]));
+                    k += 1;
+                }
+                let takes_next = cs[cs.len() - 1] == 'o' && cs[1..].iter().position(|&c| c == 'o') == Some(cs.len() - 2);
+                i += 1;
+                if takes_next && i < args.len() {
+                    letters.push(args[i].clone());
+                    i += 1;
+                }
+            } else if cs.len() >= 2 && (cs[0] == '-' || cs[0] == '+') && cs[1] != cs[0] {
+                letters.push(args[i].clone());
+                let takes_next = cs[cs.len() - 1] == 'o' && cs[1..].iter().position(|&c| c == 'o') == Some(cs.len() - 2);
+                i += 1;
+                if takes_next && i < args.len() {
+                    letters.push(args[i].clone());
+                    i += 1;
+                }
+            } else {
+                break;
+            }
+        }
+        letters.extend_from_slice(&args[i.min(args.len())..]);
+        let print = |l: &[String]| l.is_empty() || (l.len() == 1 && (l[0] == "-o" || l[0] == "+o"));
+        if letters != args && !print(&args) && !print(&letters) {
+            let o2 = observe_set(true, &letters);
+            if o2 != obs {
+                oracle = format!("FAIL:under portable, letters written separately {letters:?} give {o2}");
+            } else {
+                oracle = "ok".into();
+            }
+        }
+    }
     // the separator ends option parsing: the new positional parameters are exactly the arguments after the first `-` / `--`
     // in option position (or from the first operand on), verbatim; none of both = the parameters are left alone
     if !oracle.starts_with("FAIL") && obs.starts_with("ok modify") {
@@ -2056,7 +2102,9 @@ const H_TOKENS: [&str; 67] = [
     "--x-é", "--ERREXITé", "-oerr-exité", "err–exit", "--errexité", "++Xtraceß", "--Ａ",
     "--rcfile=a=b", "--profile==x", "--rc=x=", "--pro=a=b=c", "--rcfile=", "--rcfile", "a=b", "=", "--profile=a=b", "--errexit=x=y",
 ];
-const K_TOKENS: [&str; 38] = [
+const K_TOKENS: [&str; 48] = [
+    // real-time names and the edges of `str2sig` (wave 3: the model computes them from the extracted tables)
+    "-RTMIN+1", "-sRTMAX-2", "RTMIN", "rtmax-0", "-sRTMAX+1", "-sRTMIN-1", "-sRTMINX", "CLD", "-sIOT", "-1",
     "-s", "-n", "-l", "-v", "-lv", "INT", "TERM", "int", "SIGINT", "sigint", "9", "0", "-9", "-INT", "-int", "-SIGINT",
     "-sINT", "-sSIGINT", "-s9", "-n9", "-nINT", "-stop", "-sigstop", "-lINT", "--", "-", "123", "%1", "-x", "-sx", "EXIT",
     "-0", "-s0", "300", "-ls", "-vINT", "-sl", "",
